@@ -71,6 +71,10 @@ type NodeOpts struct {
 	MempoolTTL    uint64
 	// CustomPayload: the chain signs headers over a payload of its own (ManagerOptions.SignaturePayloadProvider)
 	CustomPayload bool
+	// PayloadHook (with CustomPayload): called at the start of every call of the node's signature payload provider - that
+	// is, inside every signature check the node makes on a header - with the header under examination. A scenario can hold
+	// one goroutine of the node there (the provider is the only code of the harness that runs inside a signature check).
+	PayloadHook   func(*types.Header)
 	DAStartHeight uint64
 	RootDir       string
 	GenesisTime   time.Time
@@ -168,6 +172,12 @@ func NewNode(ctx context.Context, o NodeOpts, k Keys, dsp *MemDS, exec coreexecu
 	mopts := block.DefaultManagerOptions()
 	if o.CustomPayload {
 		mopts.SignaturePayloadProvider = CustomSignaturePayload
+		if hook := o.PayloadHook; hook != nil {
+			mopts.SignaturePayloadProvider = func(h *types.Header) ([]byte, error) {
+				hook(h)
+				return CustomSignaturePayload(h)
+			}
+		}
 	}
 	metrics := block.NopMetrics()
 	if o.PrometheusNamespace != "" {
